@@ -378,7 +378,9 @@ func (m *machine) registerIntrinsics() {
 	in["sort.SliceStable"] = sortSlice
 
 	m.registerCodecIntrinsics()
+	m.registerEnvIntrinsics()
 	m.registerReplacements()
+	m.registerEnvReplacements()
 }
 
 func implementsError(t types.Type) bool {
